@@ -161,6 +161,21 @@ def replay_behaviour(fpu, probe, init_word, steps, events, beh_id, style):
                         if state["entered"]:
                             # normal exit, or an exception swallowed by __exit__
                             emit("Exit", state["pre_exit"], c=c, exc=state.get("exc", False), propagated=False)
+                elif op == "BodyWrite":
+                    # the body writes the register itself, through the harness's own stub (not through the package)
+                    pre = probe.get()
+                    k = s[1]
+                    w = pre
+                    if k == "fz":
+                        w ^= 1 << 15
+                    elif k == "daz":
+                        w ^= 1 << 6
+                    elif k == "rc":
+                        w = (w & ~(3 << 13)) | ((((w >> 13) & 3) + 1) % 4) << 13
+                    elif k == "flag":
+                        w |= 32
+                    probe.set(w)
+                    emit("BodyWrite", pre, what=k)
                 elif op == "Exit":
                     exc = s[1]
                     if exc:
@@ -259,6 +274,12 @@ def run(tier, seed):
     behs = export_behaviours(5 if tier == "quick" else 6, chk)
     behs += export_behaviours(6 if tier == "quick" else 7, chk, cfg="MxcsrHist3.cfg", maxdepth=3)
     behs += simulated_behaviours(300 if tier == "quick" else 5000, 14, seed + 1, chk)
+    # behaviours in which the BODY writes the register itself (toggles FZ/DAZ, changes RC, raises a flag)
+    rb = tlc.run("MC_Mxcsr", "MC_Mxcsr_body.cfg")
+    chk.add_mc("MC_Mxcsr_body.cfg", rb)
+    if not rb.ok:
+        chk.fail("model:" + "+".join(rb.invariant_violated + rb.action_property_violated), "Mxcsr.tla (with body writes) violates its property", rb.error_trace())
+    behs += export_behaviours(5 if tier == "quick" else 6, chk, cfg="MxcsrHistBody.cfg")
     probe = Probe()
     rng = random.Random(seed)
     events = []
